@@ -35,6 +35,7 @@ from nauyaca.security import tofu as tofumod  # noqa: E402
 HOSTS = {"h1": ("h1.ex", 1965), "h2": ("h2.ex", 1965)}
 FPS = {"f1": "sha256:" + "1" * 64, "f2": "sha256:" + "2" * 64}
 FP_INV = {v: k for k, v in FPS.items()}
+FOLLOWUP_HOST = ("unrelated.ex", 1965)
 FLAGS = ["AllOrNothing", "Completed", "RaisedUntouched", "FailureRaises", "OthersUntouched"]
 
 
@@ -107,6 +108,8 @@ def read_store(path):
         key = [k for k, v in HOSTS.items() if v == (host, port)]
         if key:
             out[key[0]] = FP_INV.get(fp, "other")
+        elif (host, port) == FOLLOWUP_HOST:
+            continue                       # the unrelated host pinned by the follow-up operation
         else:
             extra.append((host, port))
     if extra:
@@ -214,6 +217,17 @@ def run_case(path, workdir, store, op, k, kind, rnd_seed):
     finally:
         PLAN.armed = False
         n = PLAN.count
+    if rnd_seed % 2 == 0:
+        # the same store object lives on (as in a long-running client): a later, unrelated, successful operation must not
+        # make anything of the failed one durable
+        orig = tofumod.get_certificate_fingerprint
+        tofumod.get_certificate_fingerprint = lambda cert: cert.fp
+        try:
+            db.trust(FOLLOWUP_HOST[0], FOLLOWUP_HOST[1], FakeCert("sha256:" + "9" * 64))
+        except Exception:  # noqa: BLE001
+            pass
+        finally:
+            tofumod.get_certificate_fingerprint = orig
     return outcome, read_store(path), n
 
 
